@@ -267,19 +267,21 @@ def decompress_corrupted(data: bytes) -> bytes:
     """
     d = zlib.decompressobj()
     f = io.BytesIO(data)
-    result_str = b""
+    # (the pieces are joined at the end: appending to a bytes object copies it
+    # every time, which took seconds for a stream of some megabytes)
+    result = []
     buffer = f.read(1)
     i = 0
     try:
         while buffer:
-            result_str += d.decompress(buffer)
+            result.append(d.decompress(buffer))
             buffer = f.read(1)
             i += 1
     except zlib.error:
         # Let the error propagates if we're not yet in the CRC checksum
         if i < len(data) - 3:
             logger.warning("Data-loss while decompressing corrupted data")
-    return result_str
+    return b"".join(result)
 
 
 class PDFStream(PDFObject):
